@@ -168,6 +168,53 @@ def rand_matrix(rng, nr, nc, real_only=False):
     return [[[rng.randint(-3, 3), 0 if real_only else rng.randint(-3, 3)] for _ in range(nc)] for _ in range(nr)]
 
 
+SPARSE_KINDS = ("zero-row", "zero-col", "block-diagonal", "random-mask", "diagonal-only", "single-entry-rows")
+
+
+def sparsify(rng, M, kind):
+    """structured exact zeros: early exits / skips in the kernels key on them"""
+    nr = len(M)
+    nc = len(M[0]) if nr else 0
+    M = [[list(x) for x in row] for row in M]
+    if nr == 0 or nc == 0:
+        return M
+    if kind == "zero-row":
+        i = rng.randrange(nr)
+        M[i] = [[0, 0] for _ in range(nc)]
+    elif kind == "zero-col":
+        j = rng.randrange(nc)
+        for row in M:
+            row[j] = [0, 0]
+    elif kind == "block-diagonal":
+        a, b = max(1, nr // 2), max(1, nc // 2)
+        for i in range(nr):
+            for j in range(nc):
+                if (i < a) != (j < b):
+                    M[i][j] = [0, 0]
+    elif kind == "random-mask":
+        for i in range(nr):
+            for j in range(nc):
+                if rng.random() < 0.5:
+                    M[i][j] = [0, 0]
+    elif kind == "diagonal-only":
+        for i in range(nr):
+            for j in range(nc):
+                if i != j:
+                    M[i][j] = [0, 0]
+    elif kind == "single-entry-rows":
+        for i in range(nr):
+            keep = rng.randrange(nc)
+            for j in range(nc):
+                if j != keep:
+                    M[i][j] = [0, 0]
+    return M
+
+
+# dyadic scales 2^e closest to the powers of ten 1e-8 .. 1e4 (the scaled inputs stay exactly
+# representable in float32 and float64, so the exact value is the unscaled one times 2^(e*degree))
+SCALE_EXPS = (-27, -23, -20, -17, -13, -10, -7, -3, 3, 7, 10, 13)
+
+
 def composition(rng, total, parts, skew=False):
     v = [0] * parts
     if parts == 0:
@@ -205,11 +252,14 @@ def gen_perm_bases(rng, n_small, n_plain, n_high):
         nr, nc = rng.randint(1, 3), rng.randint(1, 3)
         t = rng.randint(9, 40)
         bases.append({"cls": "high", "rows": composition(rng, t, nr, True), "cols": composition(rng, t, nc, True)})
-    for b in bases:
+    for k, b in enumerate(bases):
         real_only = rng.random() < 0.15
         b["M"] = rand_matrix(rng, len(b["rows"]), len(b["cols"]), real_only)
         if b["cls"] == "high" and rng.random() < 0.3:
             b["M"] = [[[1, 0] for _ in b["cols"]] for _ in b["rows"]]
+        elif k % 3 == 2 and len(b["rows"]) * len(b["cols"]) > 1:
+            b["sparse"] = SPARSE_KINDS[(k // 3) % len(SPARSE_KINDS)]
+            b["M"] = sparsify(rng, b["M"], b["sparse"])
     # malformed: totals differ (the kernel must refuse)
     for _ in range(max(3, n_small // 20)):
         nr, nc = rng.randint(1, 4), rng.randint(1, 4)
@@ -238,8 +288,11 @@ def gen_lap_bases(rng, n_small, n_high):
         t = rng.randint(9, 39)
         extra = composition(rng, t + 1 - nc, nc, True)
         bases.append({"cls": "high", "rows": composition(rng, t, nr, True), "cols": [1 + e for e in extra]})
-    for b in bases:
+    for k, b in enumerate(bases):
         b["M"] = rand_matrix(rng, len(b["rows"]), len(b["cols"]), rng.random() < 0.15)
+        if k % 3 == 1 and len(b["rows"]) * len(b["cols"]) > 1:
+            b["sparse"] = SPARSE_KINDS[(k // 3) % len(SPARSE_KINDS)]
+            b["M"] = sparsify(rng, b["M"], b["sparse"])
     return bases
 
 
@@ -249,16 +302,35 @@ def variants(rng, b, kind):
     vs = [dict(b, kind=kind, prec="d", T=1, pad=0),
           dict(b, kind=kind, prec="d", T=rng.choice([2, 3, 5]), pad=rng.choice([1, 3])),
           dict(b, kind=kind, prec="f", T=rng.choice([1, 2, 4]), pad=rng.choice([0, 2]))]
+    # the same case with the matrix rescaled by 2^e (about 1e-8 .. 1e4): the value scales by
+    # 2^(e*n) exactly; compared with a relative tolerance.  The degree n limits the exponent.
+    n = max(1, sum(b["rows"]))
+    if b.get("cls") != "malformed":
+        ok_d = [e for e in SCALE_EXPS if abs(e) * n <= 400]
+        ok_f = [e for e in SCALE_EXPS if abs(e) * n <= 60]
+        if ok_d:
+            vs.append(dict(b, kind=kind, prec="d", T=1, pad=0, e=rng.choice(ok_d)))
+        if ok_f and rng.random() < 0.6:
+            vs.append(dict(b, kind=kind, prec="f", T=1, pad=rng.choice([0, 2]), e=rng.choice(ok_f)))
     return vs
 
 
 def native_line(c):
     toks = ["perm" if c["kind"] == "perm" else "lap", c["prec"], str(c["T"]), str(c["pad"]), str(len(c["rows"])), str(len(c["cols"]))]
     toks += [str(x) for x in c["rows"]] + [str(x) for x in c["cols"]]
+    sc = 2.0 ** c.get("e", 0)
     for row in c["M"]:
         for x in row:
-            toks += [str(x[0]), str(x[1])]
+            toks += [repr(x[0] * sc), repr(x[1] * sc)] if "e" in c else [str(x[0]), str(x[1])]
     return " ".join(toks)
+
+
+def scaled_matrix(c):
+    """entries as sent to the implementation (exact dyadic rescaling)"""
+    if "e" not in c:
+        return c["M"]
+    sc = 2.0 ** c["e"]
+    return [[[x[0] * sc, x[1] * sc] for x in row] for row in c["M"]]
 
 
 def coq_zi_matrix(M):
@@ -278,24 +350,46 @@ def parse_all_ints(out):
 
 
 def scale_S(c):
-    """prod_j (sum_i r_i |a_ij|)^{c_j}: the magnitude of the largest Glynn addend after the
-    division by 2^(n-1); a backward-stable evaluation errs by a small multiple of eps*S"""
-    S = 1.0
-    cols = c["cols"] if c["kind"] == "perm" else c["cols"]
-    for j, cj in enumerate(cols):
-        s = sum(ri * math.hypot(*c["M"][i][j]) for i, ri in enumerate(c["rows"]))
-        S *= s ** cj if cj else 1.0
-    return S
+    """magnitude of the largest Glynn addend after the division by 2^(n-1), for the UNSCALED
+    integer matrix: prod_j (sum_i r_i |a_ij|)^{c_j}; for the Laplace kernel the largest of the
+    products with one copy of a present column removed.  A backward-stable evaluation errs by
+    a small multiple of eps*S."""
+    cs = [sum(ri * math.hypot(*c["M"][i][j]) for i, ri in enumerate(c["rows"])) for j in range(len(c["cols"]))]
+
+    def prod(cols):
+        S = 1.0
+        for s_, cj in zip(cs, cols):
+            S *= s_ ** cj if cj else 1.0
+        return S
+    if c["kind"] == "perm":
+        return prod(c["cols"])
+    best = 0.0
+    for j, cj in enumerate(c["cols"]):
+        if cj:
+            cols = list(c["cols"])
+            cols[j] -= 1
+            best = max(best, prod(cols))
+    return best
+
+
+def scale_factor(c):
+    """exact factor by which every value of the case is multiplied by the rescaling"""
+    return Fraction(2) ** (c.get("e", 0) * sum(c["rows"]))
 
 
 def tol_for(c, exact_abs):
+    """relative tolerance (exact Fraction): base*|v| + 64 n eps S, S scaled like the value"""
     n = max(1, sum(c["rows"]))
-    base = 1e-9 if c["prec"] == "d" else 2e-4
-    S = scale_S(c)
-    if c["kind"] == "lap":
-        # one column factor fewer: bound by S / min positive column sum is not needed -- use S as is
-        pass
-    return base * (1 + exact_abs) + 64 * n * EPS[c["prec"]] * S
+    base = Fraction(1, 10 ** 9) if c["prec"] == "d" else Fraction(2, 10 ** 4)
+    S = Fraction(scale_S(c)) * scale_factor(c)
+    return base * exact_abs + Fraction(64 * n) * Fraction(EPS[c["prec"]]) * S
+
+
+def fl(x):
+    try:
+        return float(x)
+    except OverflowError:
+        return float("inf") if x > 0 else float("-inf")
 
 
 def close(got, exact, tol):
@@ -306,8 +400,22 @@ def close(got, exact, tol):
 
 
 def fits_float(c):
-    S = scale_S(c) * 2.0 ** max(0, sum(c["rows"]) - 1)
-    return S < (1e36 if c["prec"] == "f" else 1e300)
+    """the unnormalised Glynn addends (and every partial product of column-sum powers, hence the
+    product over the non-zero column sums only) and the result scale stay inside the normal range
+    of the float type; overflow / underflow of the type is not a defect of the kernel"""
+    n = sum(c["rows"])
+    e = c.get("e", 0)
+    cs = [sum(ri * math.hypot(*c["M"][i][j]) for i, ri in enumerate(c["rows"])) for j in range(len(c["cols"]))]
+    hi, lo = (120, -100) if c["prec"] == "f" else (1000, -900)
+    up = 0.0      # log2 of the largest partial product
+    dn = 0.0      # log2 of the smallest partial product
+    for s_, cj in zip(cs, c["cols"]):
+        if s_ > 0 and cj:
+            t = cj * (math.log2(s_) + e)
+            up += max(t, 0.0)
+            dn += min(t, 0.0)
+    tot = sum(cj * (math.log2(s_) + e) for s_, cj in zip(cs, c["cols"]) if s_ > 0 and cj)
+    return up + max(0, n - 1) < hi and dn > lo and tot > lo
 
 
 def run(chk: Check):
@@ -378,7 +486,7 @@ def run(chk: Check):
     py_idx = []
     for i, c in enumerate(cases):
         if c["T"] == 1 or c["prec"] == "f":
-            py_cases.append({"kind": c["kind"], "M": c["M"], "rows": c["rows"], "cols": c["cols"], "prec": c["prec"],
+            py_cases.append({"kind": c["kind"], "M": scaled_matrix(c), "rows": c["rows"], "cols": c["cols"], "prec": c["prec"],
                              "strided": c["pad"] > 0, "via": "connector" if i % 5 == 0 else "module",
                              "int64": i % 7 == 0})
             py_idx.append(i)
@@ -388,7 +496,8 @@ def run(chk: Check):
             real_cases.insert(0, {k: c[k] for k in ("kind", "M", "y") if k in c} | {"prec": "d", "strided": False})
         elif c.get("kind") in ("haf", "lhaf"):
             haf_cases.insert(0, {k: c[k] for k in ("kind", "M", "occ", "diag") if k in c} | {"prec": "d", "strided": False})
-    impl = run_impl("c04_impl.py", {"perm": py_cases, "haf": haf_cases, "real": real_cases}, timeout=3000)
+    impl = run_impl("c04_impl.py", {"perm": py_cases, "haf": [R.haf_payload(c) for c in haf_cases],
+                                     "real": [R.real_payload(c) for c in real_cases]}, timeout=3000)
     py_res = {i: r for i, r in zip(py_idx, impl["perm"])}
     lap("python impl run")
 
@@ -436,6 +545,12 @@ def run(chk: Check):
 
     # ------------------------------------------------------------ compare
     STAT = {0: "ok", 1: "Overflow", 2: "DivByZero", 3: "BadInput"}
+    hist_e, hist_sp = {}, {}
+    for c in cases:
+        if "e" in c:
+            hist_e[c["e"]] = hist_e.get(c["e"], 0) + 1
+        if c.get("sparse"):
+            hist_sp[c["sparse"]] = hist_sp.get(c["sparse"], 0) + 1
     n_eval = n_nontriv = 0
     n_search = 0
     skipped_f32 = 0
@@ -456,6 +571,9 @@ def run(chk: Check):
             ref = [R.perm_ref(c["M"], c["rows"], c["cols"])]
         else:
             ref = R.laplace_ref(c["M"], c["rows"], c["cols"])   # None entries where c_j = 0
+        if ref is not None and "e" in c:
+            sf = scale_factor(c) if sum(c["rows"]) else Fraction(1)
+            ref = [None if rv is None else (rv[0] * sf, rv[1] * sf) for rv in ref]
         # native result
         o = nat_out[i].split()
         if o[0] == "ok":
@@ -467,6 +585,7 @@ def run(chk: Check):
             got = None
         witness = {"kernel": fn, "matrix": c["M"], "rows": c["rows"], "cols": c["cols"], "precision": c["prec"],
                    "forced_hardware_concurrency": c["T"], "stride_pad": c["pad"], "native_line": lines[i],
+                   "matrix_rescaled_by_2^e": c.get("e"), "sparsity": c.get("sparse"),
                    "replay": "echo '%s' | <fresh build of /verif/native/c04/driver.cpp against %s/src>" % (lines[i], REPO)}
         wit_key = "%s:%s" % (fn, c["cls"])
         n_eval += 1
@@ -490,6 +609,8 @@ def run(chk: Check):
             else:
                 e, cnt = ints[1], ints[2]
                 mval = [(Fraction(ints[3 + 2 * k], 2 ** e), Fraction(ints[4 + 2 * k], 2 ** e)) for k in range(cnt)]
+            if "e" in c and sum(c["rows"]):
+                mval = [(a_ * scale_factor(c), b_ * scale_factor(c)) for a_, b_ in mval]
             for k, rv in enumerate(ref):
                 if rv is not None and (k >= len(mval) or mval[k] != rv):
                     corr_broken.append("model value differs from the defining sum (exact) at %s entry %d" % (lines[i], k))
@@ -498,13 +619,13 @@ def run(chk: Check):
         ub = san_rep.get(i, (None, []))[1]
         if mstat in ("Overflow", "DivByZero") and total <= 40:
             bad = got is None or not all(
-                rv is None or (k < len(got) and close(got[k], rv, tol_for(c, float(abs(rv[0]) + abs(rv[1])))))
+                rv is None or (k < len(got) and close(got[k], rv, tol_for(c, abs(rv[0]) + abs(rv[1]))))
                 for k, rv in enumerate(ref)) if in_float_range else None
             chk.violation("C04:%s:binomial_coeff-signed-overflow" % fname,
                           "signed overflow of the integer binomial weight (undefined behaviour) for multiplicities with total %d <= 40%s"
                           % (total, "; returned value wrong" if bad else ""),
                           dict(witness, model_outcome=mstat, returned=got,
-                               expected=[None if rv is None else [float(rv[0]), float(rv[1])] for rv in ref],
+                               expected=[None if rv is None else [fl(rv[0]), fl(rv[1])] for rv in ref],
                                ubsan=ub[:3]))
             n_search += 1
             continue
@@ -516,18 +637,18 @@ def run(chk: Check):
         # --- tie: model (exact) vs fresh native build; search: native vs defining sum
         for src_name, vals_ in (("native", got),):
             okm = vals_ is not None and mstat == "ok" and all(
-                k < len(vals_) and close(vals_[k], mv, tol_for(c, float(abs(mv[0]) + abs(mv[1]))))
+                k < len(vals_) and close(vals_[k], mv, tol_for(c, abs(mv[0]) + abs(mv[1])))
                 for k, mv in enumerate(mval) if ref[k] is not None) if mstat == "ok" else True
             if not okm:
-                corr_broken.append("model != fresh native %s at %s (model %s, native %s)" % (fn, lines[i], [(float(a), float(b)) for a, b in mval][:3], (vals_ or ["err"])[:3]))
+                corr_broken.append("model != fresh native %s at %s (model %s, native %s)" % (fn, lines[i], [(fl(a), fl(b)) for a, b in mval][:3], (vals_ or ["err"])[:3]))
         okr = got is not None and all(
-            rv is None or (k < len(got) and close(got[k], rv, tol_for(c, float(abs(rv[0]) + abs(rv[1])))))
+            rv is None or (k < len(got) and close(got[k], rv, tol_for(c, abs(rv[0]) + abs(rv[1]))))
             for k, rv in enumerate(ref))
         n_search += 1
         if not okr:
             chk.violation("C04:%s:value:%s:%s" % (fn, c["cls"], c["prec"]),
                           "%s differs from the defining sum beyond floating-point accuracy" % fn,
-                          dict(witness, returned=got, expected=[None if rv is None else [float(rv[0]), float(rv[1])] for rv in ref]))
+                          dict(witness, returned=got, expected=[None if rv is None else [fl(rv[0]), fl(rv[1])] for rv in ref]))
         # sanitizer build must return the same (within tolerance) value
         if i in san_rep and not ub:
             so = san_rep[i][0].split()
@@ -541,7 +662,7 @@ def run(chk: Check):
             else:
                 pv = [pr["v"]] if kind == "perm" else pr["v"]
             okp = pv is not None and all(
-                rv is None or (k < len(pv) and close(pv[k], rv, tol_for(c, float(abs(rv[0]) + abs(rv[1])))))
+                rv is None or (k < len(pv) and close(pv[k], rv, tol_for(c, abs(rv[0]) + abs(rv[1]))))
                 for k, rv in enumerate(ref))
             if not okp and okr:
                 shipped_div.append({"rows": c["rows"], "cols": c["cols"], "prec": c["prec"], "shipped": pv if pv else pr.get("err"), "fresh": got})
@@ -559,7 +680,9 @@ def run(chk: Check):
     notes.append("float cases skipped because the unnormalised Glynn addends exceed the float range (float32 overflow is not a defect of the kernel): %d" % skipped_f32)
     chk.stream("permanent / Laplace permanents: Coq model (exact) vs fresh native build vs shipped binary; float64+float32, forced concurrency, strided",
                n_eval, len(seen_nontriv), samples=samples,
-               note="classes: small (total<=8, <=6 modes, zeros allowed), plain (n<=8), high (total<=40, <=3 modes), malformed, corpus")
+               note="classes: small (total<=8, <=6 modes, zeros allowed), plain (n<=8), high (total<=40, <=3 modes), malformed, corpus; "
+                    "rescaled by 2^e (e -> cases): %s; structured zeros (kind -> cases): %s"
+                    % (json.dumps({str(k): v for k, v in sorted(hist_e.items())}), json.dumps(hist_sp)))
     chk.stream("permanent / Laplace: fresh native build vs defining sum in Python fractions (search)", n_search, len(seen_nontriv), kind="search")
 
     lap("perm compared")
